@@ -194,6 +194,25 @@ Proof.
   split; [lia|reflexivity].
 Qed.
 
+(* the compaction takes at least one file of its lower level *)
+Definition has_lower_input (v : version) (c : compaction) : Prop :=
+  exists f, In f (nth (clower c) v []) /\ is_input c f = true.
+
+Lemma exp_levels_inputs_mono o v : forall n lvl c fk lk x,
+  In x (cinputs c) -> In x (cinputs (exp_levels o v n lvl c fk lk)).
+Proof.
+  induction n as [|n IH]; intros lvl c fk lk x H; cbn [exp_levels]; [exact H|].
+  destruct (exp_level o v c lvl fk lk (nth lvl v []) []) as [[|t ta]|]; auto.
+  apply IH. unfold add_inputs. cbn [cinputs]. apply in_or_app. now left.
+Qed.
+
+Lemma expand_has_lower o v c : has_lower_input v c -> has_lower_input v (expand_compaction o v c).
+Proof.
+  intros [f [Hf Hi]]. unfold expand_compaction.
+  destruct (exp_levels_levels o v (if (clower c <=? cupper c)%nat then S (cupper c - clower c) else 0%nat) (cupper c) c (cfirst c) (clast c)) as (E1 & _).
+  exists f. rewrite E1. split; [exact Hf|]. apply is_input_spec. apply exp_levels_inputs_mono. now apply is_input_spec.
+Qed.
+
 (* ---------- the raw candidate ---------- *)
 Section Raw.
   Variables (o : options) (v : version) (og : list compaction) (lower : nat).
@@ -201,6 +220,8 @@ Section Raw.
   Hypothesis WF : sel_wf v.
   Hypothesis CB : cb_ok lower (skipn lower v) fk0 lk0 bs0.
   Hypothesis K0 : key_leb fk0 lk0 = true.
+  (* the key range handed to compute_bounds covers some file of the lower level *)
+  Hypothesis H0 : exists s, In s (nth lower v []) /\ key_leb fk0 (first_key s) = true /\ key_leb (last_key s) lk0 = true.
 
   Let lvs0 := skipn lower v.
   Definition sl (i : nat) : list file := slice (nth i lvs0 []) (ls_lb (nth i bs0 dls)) (ls_ub (nth i bs0 dls)).
@@ -322,8 +343,21 @@ Section Raw.
       + apply files_overlap_false_r. eapply key_leb_ltb_trans; [|exact O1]. eapply key_leb_trans; eauto.
   Qed.
 
+  Lemma raw_has_lower t : (0 < length lvs0)%nat -> has_lower_input v (raw t).
+  Proof.
+    intros Hl. destruct H0 as (s & Hs & R1 & R2). exists s. unfold raw. cbn [clower]. split; [exact Hs|].
+    apply is_input_spec. cbn [cinputs]. apply in_inputs_upto. exists 0%nat, s. repeat split; [lia|].
+    destruct (cb_ok_first_le _ _ _ _ _ CB 0%nat Hl) as [A B].
+    destruct (Nat.eq_dec lower 0) as [El|El].
+    - rewrite sl0_all; auto. now rewrite <- El.
+    - apply sl_complete; try lia.
+      + rewrite Nat.add_0_r. exact Hs.
+      + eapply key_leb_trans; eauto.
+      + eapply key_leb_trans; eauto.
+  Qed.
+
   (* ---------- the loop of find_best_compaction ---------- *)
-  Definition Q (c : core) : Prop := adm v (cc c) /\ may_choose o og (cc c) = true.
+  Definition Q (c : core) : Prop := adm v (cc c) /\ may_choose o og (cc c) = true /\ has_lower_input v (cc c).
 
   Lemma fbc_loop_adm : forall lvs t bs ovs inputs cand best r,
     lvs = skipn t lvs0 -> bs = skipn t bs0 -> inputs = inputs_upto t ->
@@ -356,10 +390,12 @@ Section Raw.
       { subst cb. destruct ((lower <? lower + t)%nat && (best <? acc_of ovs - overlap_of (sl t))%Z) eqn:EC; [|exact HQ].
         cbv zeta.
         destruct (may_choose o og (expand_compaction o v (mkC lower (lower + t) (ls_first b) (ls_last b) (inputs ++ map fid (sl t))))) eqn:EM; [|exact HQ].
-        cbn [fst]. intros c' E. inversion E; subst c'; clear E. split; [|exact EM]. cbn [cc].
-        apply expand_adm; [exact WF|].
+        cbn [fst]. intros c' E. inversion E; subst c'; clear E. cbn [cc].
         apply andb_prop in EC. destruct EC as [EC _]. apply Nat.ltb_lt in EC.
-        rewrite Ei, <- inputs_upto_S, E3. apply raw_adm; [lia|exact Ht]. }
+        rewrite Ei, <- inputs_upto_S, E3. fold (raw t).
+        split; [apply expand_adm; [exact WF|apply raw_adm; [lia|exact Ht]]|split].
+        - unfold raw. rewrite <- E3, inputs_upto_S, <- Ei. exact EM.
+        - apply expand_has_lower. apply raw_has_lower. lia. }
       destruct (ls_lb b =? ls_ub b)%nat.
       + inversion H; subst r. auto.
       + replace (S (lower + t)) with (lower + S t)%nat in H by lia.
@@ -371,12 +407,13 @@ End Raw.
 
 Theorem find_best_adm o v og lower bs0 fk0 lk0 r c : sel_wf v ->
   cb_ok lower (skipn lower v) fk0 lk0 bs0 -> key_leb fk0 lk0 = true ->
+  (exists s, In s (nth lower v []) /\ key_leb fk0 (first_key s) = true /\ key_leb (last_key s) lk0 = true) ->
   find_best_compaction o v og lower bs0 = Ok r -> fst r = Some c ->
-  adm v (cc c) /\ may_choose o og (cc c) = true.
+  adm v (cc c) /\ may_choose o og (cc c) = true /\ has_lower_input v (cc c).
 Proof.
-  intros WF CB K0 H Hc. unfold find_best_compaction in H.
+  intros WF CB K0 H0 H Hc. unfold find_best_compaction in H.
   destruct (negb (lower <? length v)%nat || is_nil (nth lower v [])); [discriminate|].
   replace lower with (lower + 0)%nat in H at 2 by lia.
-  eapply (fbc_loop_adm o v og lower bs0 fk0 lk0 WF CB K0 (skipn lower v) O bs0); eauto; try reflexivity.
+  eapply (fbc_loop_adm o v og lower bs0 fk0 lk0 WF CB K0 H0 (skipn lower v) O bs0); eauto; try reflexivity.
   discriminate.
 Qed.
